@@ -23,6 +23,8 @@ property is the encode→decode predicate evaluated on the implementation by har
 import CueVerif.Spec.Yaml
 import CueVerif.Proofs.Yaml
 import CueVerif.Proofs.YamlBlock
+import CueVerif.Proofs.YamlPrint
+import CueVerif.Proofs.YamlClean
 import CueVerif.Spec.Quote
 import CueVerif.Proofs.QuoteMain
 namespace CueVerif.C11
@@ -198,6 +200,93 @@ theorem C11_block_roundtrip (P : IsPrint) (s : Bytes) (h : blockLiteralSafe P s 
 
 -- non-vacuity: a string with inner and trailing blank lines and an indented inner line
 example : BlockRoundTrips (b "a\n\n  b\n\n") := C11_block_roundtrip asciiPrint _ (by decide)
+
+/-! ### the block as PRINTED: padding, `stripBlankLinePadding`, clean bytes (extension round) -/
+
+/-- `stripBlankLinePadding` acts on every line of EVERY document independently (a non-empty
+line of blanks becomes empty, every other line is kept): its fast path — "no ` \n` and no
+trailing blank: return the input" — never skips a line the loop would have changed. -/
+theorem C11_strip_linewise (doc : Bytes) :
+    stripBlankLinePadding doc = joinLines ((splitLines doc).map stripLine) :=
+  strip_linewise doc
+
+example : stripBlankLinePadding (b "k: |\n  a\n  \n  b\n") = b "k: |\n  a\n\n  b\n" := by decide
+
+/-- For ALL strings `blockLiteralSafe` admits, every indentation and every key without a line
+feed: the document `Encode` prints for `{key: <block of s>}` — the key line with the header,
+goccy's lines with the blank lines PADDED to the indentation, the final line break, all passed
+through `stripBlankLinePadding` — consists of exactly the key line, the lines of `emitBlock`
+(non-empty lines indented, empty lines empty) and the end of the last line.  This is where the
+conjunct "no line ends in a blank" of `blockLiteralSafe` is used: it makes the blank-only lines
+of the print exactly the padded empty lines of s. -/
+theorem C11_printed_doc_lines (P : IsPrint) (key : Bytes) (hk : 10 ∉ key) (ind : Nat) (s : Bytes)
+    (h : blockLiteralSafe P s = true) :
+    splitLines (printedBlockDoc key ind s) =
+      (key ++ b ": " ++ (emitBlockRaw ind s).1.text) :: ((emitBlock ind s).2 ++ [[]]) :=
+  printed_doc_lines P key hk ind s h
+
+/-- The strengthened block round trip, with no side condition left outside the model: print
+the padded block, strip the padding, split into lines, read back by YAML 1.2 §8.1.1 — the
+result is s, for ALL strings `blockLiteralSafe` admits and all indentations (leading and
+trailing blank lines, inner indentation, all three chomping indicators `|-` `|` `|+`). -/
+theorem C11_block_roundtrip_printed (P : IsPrint) (ind : Nat) (s : Bytes) (h : blockLiteralSafe P s = true) :
+    parseBlock (emitBlockRaw ind s).1
+      (splitLines (stripBlankLinePadding (joinLines (emitBlockRaw ind s).2))) = s :=
+  printed_block_roundtrip P ind s h
+
+example : parseBlock (emitBlockRaw 4 (b "\na\n\n  b\n\n")).1
+    (splitLines (stripBlankLinePadding (joinLines (emitBlockRaw 4 (b "\na\n\n  b\n\n")).2))) = b "\na\n\n  b\n\n" :=
+  C11_block_roundtrip_printed asciiPrint 4 _ (by decide)
+
+/-- The trailing-blank conjunct is not vacuous: a string with a blank-only line (`"a\n \nb"`,
+rejected by `blockLiteralSafe`) would NOT survive print + strip + read (it comes back as
+`"a\n\nb"`). -/
+theorem C11_block_trailing_blank_witness :
+    blockLiteralSafe asciiPrint (b "a\n \nb") = false ∧
+    parseBlock (emitBlockRaw 2 (b "a\n \nb")).1
+      (splitLines (stripBlankLinePadding (joinLines (emitBlockRaw 2 (b "a\n \nb")).2))) = b "a\n\nb" := by decide
+
+/-- For ALL strings `blockLiteralSafe` admits (whatever `unicode.IsPrint` is): every byte is TAB,
+LF, printable ASCII or ≥ 0x80 — no CR, no other C0 control, no DEL — so the line break
+normalisation of a YAML reader (§5.4: CR LF and CR become LF) is the identity on the string,
+and the LF-only line splitting of `parseBlock` is the reader's.  This is what the conjunct
+`!yamlUnprintable(s)` contributes to the block path. -/
+theorem C11_block_text_clean (P : IsPrint) (s : Bytes) (h : blockLiteralSafe P s = true) :
+    (∀ c ∈ s, cleanByte c = true) ∧ normalizeBreaks s = s :=
+  ⟨blockLiteralSafe_clean P s h, normalizeBreaks_id s (blockLiteralSafe_noCR P s h)⟩
+
+example : normalizeBreaks (b "a\r\nb\rc") = b "a\nb\nc" ∧ blockLiteralSafe asciiPrint (b "a\rb\nc") = false := by decide
+
+/-! ### single quotes: `singleQuoted`, `quoteFlowUnsafe` (extension round) -/
+
+/-- For ALL strings: the YAML single-quoted scalar `singleQuoted` writes (`'` doubled, nothing
+else escaped) is read back (§7.3.2, one line) as the string. -/
+theorem C11_single_quoted_roundtrip (s : Bytes) : unquoteSingle (singleQuoted s) = some s :=
+  single_quoted_roundtrip s
+
+/-- Keys and values the explicit-key / merge / document-end indicators would change — `?`,
+`? …` (complex key), `…<<` (merge key), `...…` (document end) — are never printed plain, for ALL
+such strings, every lexer verdict and whatever the library's own rule says. -/
+theorem C11_indicator_quoted (lx : Lex) (s : Bytes) (h : needsSingleQuoting s = true) : Quoted lx s :=
+  quoted_of lx s (Or.inl h)
+
+example : Quoted ⟨true, .str, true⟩ (b "? a: b") := C11_indicator_quoted _ _ (by decide)
+
+/-- `quoteFlowUnsafe` (string arm): what it quotes reads back as the string; what it leaves alone
+holds none of the flow indicators `,[]{}:`. -/
+theorem C11_flow_quoted (s q : Bytes) (h : quoteFlowUnsafe s = some q) : unquoteSingle q = some s := by
+  unfold quoteFlowUnsafe at h
+  split at h
+  · injection h with h; subst h; exact single_quoted_roundtrip s
+  · cases h
+theorem C11_flow_plain_safe (s : Bytes) (h : quoteFlowUnsafe s = none) : containsAny flowUnsafe s = false := by
+  unfold quoteFlowUnsafe at h
+  split at h
+  · cases h
+  · rename_i hc; simpa using hc
+
+example : quoteFlowUnsafe (b "it's, a") = some (b "'it''s, a'") := by decide
+example : unquoteSingle (b "'it''s, a'") = some (b "it's, a") := C11_flow_quoted _ _ (by decide)
 
 /-- History, about the clearly named OLD predicate `blockLiteralSafeOld` (= the code before
 /repo 05f5435, no longer tied to the tree): the same statement … -/
